@@ -28,7 +28,7 @@ TIERS = {
 }
 RULE = ('seeded TT tensors/operators of order 1..6; reshape to an ordered factorisation/merge of the element count with 0-2 singleton '
         'modes inserted (front/middle/end), permutations (all for d<=4, sampled above), power-of-two QTT conversion and folding back; '
-        'each executed fault-free and under every single primary-SVD failure, all-fail, two subsets, one double fault; evaluations = '
+        '20% of the non-graded operands carry a history (an earlier call of the family on the same object, then set_core with a core of the same shape); each executed fault-free and under every single primary-SVD failure, all-fail, two subsets, one double fault; evaluations = '
         'calls executed; distinct by (routine, kind, order in, order out, dtype, eps class, trailing-singleton flags, plan kind)')
 ASSUMPTIONS = ['inputs are sampled; the exhaustively enumerated dimension is the set of single primary-SVD failures of each call',
                'constant of the bound: C*eps*||x|| + 2000*u*prod||G_k||*d with C=5 (reshape, permute) or 10 (to_qtt), calibrated on graded spectra',
@@ -136,6 +136,12 @@ def gen_case(rng):
     # exact zeros: zeros(N) + x puts an all-zero block first in every core (zero pivots in the orthogonalisation);
     # 'dead' zeroes one rank slice of one core
     p['zeros'] = rng.choice([None] * 6 + ['front', 'back', 'dead']) if (p['graded'] is None and p['gauge'] is None) else None
+    # history dimension: the operand has already been through the same routine (or another one of the family) and one of
+    # its cores was then replaced through set_core by a core of the same shape; the routine must follow the current cores
+    p['history'] = None
+    if p['graded'] is None and p['gauge'] is None and rng.random() < 0.2:
+        p['history'] = {'prior': rng.choice(['same', 'same', 'reshape_flat', 'to_qtt', 'permute_rev']), 'k': rng.randint(0, 5), 'vseed': rng.getrandbits(31),
+                        'how': rng.choice(['random', 'negate', 'scale'])}
     return p
 
 
@@ -277,13 +283,47 @@ def contract(p, x, y, No, Mo, ref):
 LAST = {'ratio': None, 'eps_ratio': None}
 
 
+def apply_history(p, x, stats):
+    """Give the operand a past: an earlier call of the family on the same object, then a documented in-place change of
+    one core (set_core with a core of the same shape).  Whatever the earlier call raised or returned is of no interest
+    here (it is another run's checked call); only x's current cores count afterwards."""
+    h = p['history']
+    try:
+        if h['prior'] == 'same':
+            expected(p, x)[0]()
+        elif h['prior'] == 'reshape_flat':
+            if x.is_ttm:
+                torchtt.reshape(x, [(int(np.prod(gen.ints(x.M))), int(np.prod(gen.ints(x.N))))])
+            else:
+                torchtt.reshape(x, [int(np.prod(gen.ints(x.N)))])
+        elif h['prior'] == 'to_qtt':
+            x.to_qtt()
+        else:
+            torchtt.permute(x, list(range(len(x.N)))[::-1])
+        core.bump(stats, 'history.prior_' + h['prior'])
+    except Exception:
+        core.bump(stats, 'history.prior_raised')
+    k = h['k'] % len(x.cores)
+    c = x.cores[k]
+    if h['how'] == 'random':
+        new = gen.randn(list(c.shape), p['dt'], gen.vgen(h['vseed']))
+    elif h['how'] == 'negate':
+        new = -c
+    else:
+        new = c * 3.0
+    x.set_core(k, new)
+    core.bump(stats, 'probe.operand_with_history')
+
+
 def exec_case(p, res, plans=None, rng=None):
     stats = res['stats']
     out = []
     x = build(p)
+    if p.get('history'):
+        apply_history(p, x, stats)
     snap = take_snap(x)
     call, No, Mo, ref = expected(p, x)
-    fam = ('graded|' if p.get('graded') else ('gauge_%s|' % p.get('gauge_kind')) if p.get('gauge') else ('zeros_%s|' % p['zeros']) if p.get('zeros') else '') + '%s|%s|din%d|dout%d|%s|%s|%s' % (p['routine'], p['dt'], len(p['N']), len(No), 'default' if p['eps'] is None else 'tiny' if p['eps'] < 1e-9 else 'eps',
+    fam = ('hist|' if p.get('history') else '') + ('graded|' if p.get('graded') else ('gauge_%s|' % p.get('gauge_kind')) if p.get('gauge') else ('zeros_%s|' % p['zeros']) if p.get('zeros') else '') + '%s|%s|din%d|dout%d|%s|%s|%s' % (p['routine'], p['dt'], len(p['N']), len(No), 'default' if p['eps'] is None else 'tiny' if p['eps'] < 1e-9 else 'eps',
                                            'in1' if p['N'][-1] == 1 else '', 'out1' if No and No[-1] == 1 else '')
     y0, exc, f0 = svdfault.run_with_plan(call, {})
     core.bump(stats, 'calls')
@@ -371,6 +411,8 @@ def shrink_candidates(desc):
         yield {'case': dict(p, R=[1] + [min(r, 2) for r in p['R'][1:-1]] + [1]), 'plan': plan}
     if p['eps'] is not None:
         yield {'case': dict(p, eps=None), 'plan': plan}
+    if p.get('history'):
+        yield {'case': dict(p, history=None), 'plan': plan}
     if p.get('graded'):
         yield {'case': dict(p, graded=None), 'plan': plan}
     if p.get('gauge'):
